@@ -86,7 +86,7 @@ DimPairs(d) == LET idx == { i \in 1..6 : d[i] # 0 }
 Fns == {"water_density", "water_viscosity", "water_diffusion", "water_permittivity",
         "sulfuric_acid_density", "density_from_concentration", "lg_solubility_ratio",
         "henry_H", "henry_c", "henry_P", "henry_roundtrip", "nernst", "mobility"}
-ArgNames == {"T", "P", "w", "c1", "c2", "z", "D", "H0", "Td", "M", "T0", "Tz", "eta20"}
+ArgNames == {"T", "P", "w", "c1", "c2", "c3", "z", "D", "H0", "Td", "M", "T0", "Tz", "eta20", "atol", "em0", "em1"}
 (* optional arguments and their documented defaults: T0 (reference temperature of a Henry       *)
 (* constant, 298.15 K), Tz (the kelvin value of 0 C in the density correlations, 273.15 K),       *)
 (* eta20 (viscosity at 20 C, 1.0020 cP).  `impl` = leave arguments that equal their documented    *)
@@ -94,10 +94,21 @@ ArgNames == {"T", "P", "w", "c1", "c2", "z", "D", "H0", "Td", "M", "T0", "Tz", "
 HenryT0 == <<5963, 20>>
 K0 == <<5463, 20>>                               \* 273.15 K
 Eta20 == <<501, 500>>
-NoArgs == [T |-> QZero, P |-> QZero, w |-> QZero, c1 |-> QZero, c2 |-> QZero, z |-> QZero,
+(* Further options of the calls (coverage audit): T and P themselves have documented defaults   *)
+(* (298.15 K, 1 bar) in the correlations; `atol` is the stopping criterion of the inverse         *)
+(* (1e-3 kg/m3); em0 / em1 are the err_mult multipliers of the Holz correlation (0 = unperturbed);*)
+(* wflag: the `warn` keyword ("default" = not passed, "off" = warn=False, "on" = warn=True);      *)
+(* be: the `backend` keyword ("default" = not passed, "math", "numpy", "sympy");                  *)
+(* via: how a Henry constant is evaluated ("class", "function" = Henry_H_at_T, "alias" =          *)
+(* get_kH_at_T).                                                                                  *)
+TDefault == <<5963, 20>>                         \* 298.15 K
+AtolDefault == <<1, 1000>>
+NoArgs == [T |-> QZero, P |-> QZero, w |-> QZero, c1 |-> QZero, c2 |-> QZero, c3 |-> QZero, z |-> QZero,
            D |-> QZero, H0 |-> QZero, Td |-> QZero, M |-> QZero, T0 |-> HenryT0, Tz |-> K0, eta20 |-> Eta20,
-           sel |-> 0, impl |-> TRUE]
-DefaultOf(a) == CASE a = "T0" -> HenryT0 [] a = "Tz" -> K0 [] a = "eta20" -> Eta20
+           atol |-> AtolDefault, em0 |-> QZero, em1 |-> QZero,
+           sel |-> 0, impl |-> TRUE, wflag |-> "default", be |-> "default", via |-> "class"]
+DefaultOf(a) == CASE a = "T0" -> HenryT0 [] a = "Tz" -> K0 [] a = "eta20" -> Eta20 [] a = "T" -> TDefault
+                  [] a = "P" -> QOne [] a = "atol" -> AtolDefault
 
 (* arguments that carry a unit, with the unit they are documented in *)
 DocUnits(f) ==
@@ -106,8 +117,8 @@ DocUnits(f) ==
       [] f = "water_diffusion" -> [a \in {"T"} |-> "K"]
       [] f = "water_permittivity" -> [a \in {"T", "P"} |-> IF a = "T" THEN "K" ELSE "bar"]
       [] f = "density_from_concentration" ->
-              [a \in {"T", "M"} |-> IF a = "T" THEN "K" ELSE "kg/mol"]       \* conc: see ConcGiven
-      [] f = "lg_solubility_ratio" -> [a \in {"c1", "c2"} |-> "M"]
+              [a \in {"T", "M", "atol"} |-> CASE a = "T" -> "K" [] a = "M" -> "kg/mol" [] a = "atol" -> "kg/m3"]  \* conc: see ConcGiven
+      [] f = "lg_solubility_ratio" -> [a \in {"c1", "c2", "c3"} |-> "M"]
       [] f = "henry_H" -> [a \in {"T", "H0", "Td", "T0"} |-> CASE a = "H0" -> "M/atm" [] OTHER -> "K"]
       [] f \in {"henry_c", "henry_roundtrip"} ->
               [a \in {"T", "H0", "Td", "T0", "P"} |-> CASE a = "H0" -> "M/atm" [] a = "P" -> "atm" [] OTHER -> "K"]
@@ -126,6 +137,7 @@ ScaledUnit(f, a) ==
       [] a = "H0" -> "mM/bar"
       [] a = "D" -> "cm2/s"
       [] a = "eta20" -> "Pa*s"
+      [] a = "atol" -> "g/cm3"
       [] OTHER -> DocUnits(f)[a]
 ResultUnit(f) ==
     CASE f \in {"water_density", "sulfuric_acid_density", "density_from_concentration"} -> "kg/m3"
@@ -150,6 +162,20 @@ LawDim(f) ==
       [] f = "nernst" -> DimDiv(DimMul(DimDiv(dEnergy, DimMul(dAmt, dTemp)), dTemp), DimDiv(dCharge, dAmt))
       \* D z e / (kB T): (m2/s) C / ((J/K) K)
       [] f = "mobility" -> DimDiv(DimMul(dDiff, dCharge), DimMul(DimDiv(dEnergy, dTemp), dTemp))
+
+(* Schumpe 1993, eq. (16): lg(c0 / c) = sum_i (h_i + h_G) c_i  (c in mol/dm3)                *)
+HIon(k) == CASE k = "Na+" -> <<1171, 10000>> [] k = "K+" -> <<959, 10000>> [] k = "Mg+2" -> <<1765, 10000>>
+             [] k = "Cl-" -> <<334, 10000>> [] k = "Br-" -> <<137, 10000>> [] k = "OH-" -> <<756, 10000>>
+             [] k = "SO4-2" -> <<1185, 10000>> [] k = "F-" -> <<1016, 10000>> [] k = "NO3-" -> <<50, 10000>>
+HGas(g) == CASE g = "O2" -> <<0, 1>> [] g = "CO2" -> <<-183, 10000>> [] g = "N2O" -> <<-110, 10000>>
+             [] g = "H2" -> <<-24, 1000>> [] g = "He" -> <<-36, 1000>> [] g = "C2H6" -> <<11, 1000>>
+SchumpeSel == << [ions |-> <<"Na+", "Cl-">>, gas |-> "O2"], [ions |-> <<"Na+", "Br-">>, gas |-> "N2O"],
+                 [ions |-> <<"K+", "OH-">>, gas |-> "CO2"], [ions |-> <<"Mg+2", "SO4-2">>, gas |-> "H2"],
+                 [ions |-> <<"Na+", "F-">>, gas |-> "He"], [ions |-> <<"K+", "NO3-">>, gas |-> "C2H6"],
+                 [ions |-> <<"Cl-">>, gas |-> "CO2"], [ions |-> <<"Na+", "K+", "SO4-2">>, gas |-> "N2O"] >>
+Schumpe(sel, cs) ==
+    LET s == SchumpeSel[sel] IN
+    QSumSeq([i \in 1..Len(s.ions) |-> QMul(QAdd(HGas(s.gas), HIon(s.ions[i])), cs[i])])
 
 (* modes = call configurations.  name: how the inputs are handed over (unitless = plain numbers,  *)
 (* concplain = temperature as a quantity but concentrations as plain numbers, units, scaled,      *)
@@ -182,8 +208,20 @@ GivenArg(f, ar, a, m) ==
     LET u == UnitIn(f, a, m)
         mul == Conv(DocUnits(f)[a], DocOf(f, a, u))
     IN  [unit |-> u, mul |-> mul, mag |-> QMul(ar[a], mul)]
-OptionalArgs == {"T0", "Tz", "eta20"}
-Omitted(f, ar) == IF ar.impl THEN { a \in DOMAIN DocUnits(f) \cap OptionalArgs : Norm(ar[a]) = DefaultOf(a) } ELSE {}
+OptionalArgs(f) ==
+    CASE f \in {"water_density", "sulfuric_acid_density"} -> {"T", "Tz"}
+      [] f = "water_viscosity" -> {"T", "eta20"}
+      [] f = "water_diffusion" -> {"T"}
+      [] f = "water_permittivity" -> {"T", "P"}
+      [] f = "density_from_concentration" -> {"T", "atol"}
+      [] f \in {"henry_H", "henry_c", "henry_P", "henry_roundtrip"} -> {"T0"}
+      [] OTHER -> {}
+(* arguments that do not exist for this point (a salting-out mapping has 1, 2 or 3 ions) *)
+Absent(f, ar) == IF f = "lg_solubility_ratio"
+                 THEN { a \in {"c2", "c3"} : (a = "c2" /\ Len(SchumpeSel[ar.sel].ions) < 2) \/ (a = "c3" /\ Len(SchumpeSel[ar.sel].ions) < 3) }
+                 ELSE {}
+Omitted(f, ar) == (IF ar.impl THEN { a \in DOMAIN DocUnits(f) \cap OptionalArgs(f) : Norm(ar[a]) = DefaultOf(a) } ELSE {})
+                  \cup Absent(f, ar)
 Given(f, ar, m) == [a \in DOMAIN DocUnits(f) \ Omitted(f, ar) |-> GivenArg(f, ar, a, m)]
 
 ------------------------------------------------------------------------------
@@ -202,8 +240,14 @@ OtherOutside(f, ar) ==
       [] OTHER -> FALSE
 RangeClass(f, ar) == IF TOutside(f, ar) THEN "Toutside" ELSE IF OtherOutside(f, ar) THEN "otheroutside" ELSE "inside"
 (* density_from_concentration calls the correlation with warn=False (its documented default) *)
+WarnEnabled(f, ar) == CASE ar.wflag = "off" -> FALSE [] ar.wflag = "on" -> TRUE
+                        [] OTHER -> f # "density_from_concentration"
+(* density_from_concentration(warn=True) forwards the flag to the correlation for every ITERATE  *)
+(* of the fixed point; an iterate may leave the mass-fraction range although the solution is     *)
+(* inside, so with T inside a (mass-fraction) warning is neither demanded nor forbidden          *)
 WarnExpect(f, ar) ==
-    IF f = "density_from_concentration" THEN "no"
+    IF ~WarnEnabled(f, ar) THEN "no"
+    ELSE IF f = "density_from_concentration" THEN (IF TOutside(f, ar) THEN "yes" ELSE "either")
     ELSE CASE RangeClass(f, ar) = "Toutside" -> "yes" [] RangeClass(f, ar) = "inside" -> "no" [] OTHER -> "either"
 
 (* guard band (DESIGN 6: every float threshold has one): a point exactly ON a range limit, handed *)
@@ -247,7 +291,9 @@ ViscTerm == TMul(TVar("eta20"),
                                    TAdd(tC, TQ(8993, 100)))))
 
 (* Holz et al. 2000:  D = D0 (T / TS - 1)^gamma *)
-DiffTerm == TMul(TDec(1635, -11), TPow(TSub(TDiv(vT, TQ(21505, 100)), TC(1)), TQ(2063, 1000)))
+(* err_mult = (em0, em1) perturbs D0 by em0 * 2.242e-11 and TS by em1 * 1.2 (reported uncertainties) *)
+DiffTerm == TMul(TAdd(TDec(1635, -11), TMul(TVar("em0"), TDec(2242, -14))),
+                 TPow(TSub(TDiv(vT, TAdd(TQ(21505, 100), TMul(TVar("em1"), TQ(12, 10)))), TC(1)), TQ(2063, 1000)))
 
 (* Bradley & Pitzer 1979, eqs. as in the docstring of water_permittivity (T in K, P in bar)  *)
 vP == TVar("P")
@@ -273,19 +319,6 @@ Myhre ==
        <<DDec(-1, 2682616, <<>>), DZero, DZero, DZero, DZero>>,
        <<DDec(1, 576428, <<8000>>), DZero, DZero, DZero, DZero>> >>
 RhoAcid(w, t) == DHorner([i \in 1..11 |-> DHorner(Myhre[i], t)], w)
-
-(* Schumpe 1993, eq. (16): lg(c0 / c) = sum_i (h_i + h_G) c_i  (c in mol/dm3)                *)
-HIon(k) == CASE k = "Na+" -> <<1171, 10000>> [] k = "K+" -> <<959, 10000>> [] k = "Mg+2" -> <<1765, 10000>>
-             [] k = "Cl-" -> <<334, 10000>> [] k = "Br-" -> <<137, 10000>> [] k = "OH-" -> <<756, 10000>>
-             [] k = "SO4-2" -> <<1185, 10000>> [] k = "F-" -> <<1016, 10000>> [] k = "NO3-" -> <<50, 10000>>
-HGas(g) == CASE g = "O2" -> <<0, 1>> [] g = "CO2" -> <<-183, 10000>> [] g = "N2O" -> <<-110, 10000>>
-             [] g = "H2" -> <<-24, 1000>> [] g = "He" -> <<-36, 1000>> [] g = "C2H6" -> <<11, 1000>>
-SchumpeSel == << [ions |-> <<"Na+", "Cl-">>, gas |-> "O2"], [ions |-> <<"Na+", "Br-">>, gas |-> "N2O"],
-                 [ions |-> <<"K+", "OH-">>, gas |-> "CO2"], [ions |-> <<"Mg+2", "SO4-2">>, gas |-> "H2"],
-                 [ions |-> <<"Na+", "F-">>, gas |-> "He"], [ions |-> <<"K+", "NO3-">>, gas |-> "C2H6"] >>
-Schumpe(sel, c1, c2) ==
-    LET s == SchumpeSel[sel] IN
-    QAdd(QMul(QAdd(HGas(s.gas), HIon(s.ions[1])), c1), QMul(QAdd(HGas(s.gas), HIon(s.ions[2])), c2))
 
 (* Henry's law with van 't Hoff temperature dependence, T0 = 298.15 K                        *)
 HenryTerm == TMul(TVar("H0"), TExp(TMul(TVar("Td"), TSub(TInv(vT), TInv(TVar("T0"))))))
@@ -323,7 +356,7 @@ Expected(f, ar) ==
     ELSE IF f \in {"sulfuric_acid_density", "density_from_concentration"}
     THEN [kind |-> "bdq", bdq |-> BDQ(DQ(RhoAcid(DFromQ(ar.w), CelsiusZ(ar.T, ar.Tz)), DOne)), q |-> QZero, term |-> TC(0)]
     ELSE IF f = "lg_solubility_ratio"
-    THEN [kind |-> "q", bdq |-> NoBDQ, q |-> Schumpe(ar.sel, ar.c1, ar.c2), term |-> TC(0)]
+    THEN [kind |-> "q", bdq |-> NoBDQ, q |-> Schumpe(ar.sel, <<ar.c1, ar.c2, ar.c3>>), term |-> TC(0)]
     ELSE IF f = "henry_roundtrip"
     THEN [kind |-> "q", bdq |-> NoBDQ, q |-> ar.P, term |-> TC(0)]
     ELSE LET v == EvalQR(TermOf(f), Env(ar)) IN
@@ -345,8 +378,8 @@ Rtol(f, m) ==
       [] f = "density_from_concentration" -> <<0, 1>>
       [] f \in {"nernst", "mobility"} -> IF m.consts THEN <<1, 100000>> ELSE <<1, 1000000000>>
       [] OTHER -> <<1, 1000000000>>
-Atol(f) == IF f = "density_from_concentration" THEN <<5, 100>>        \* 0.05 kg/m3 (criterion 1e-3 / (1 - q))
-           ELSE QZero
+Atol(f, ar) == IF f = "density_from_concentration" THEN QMul(<<50, 1>>, ar.atol)   \* criterion / (1 - contraction)
+               ELSE QZero
 
 ------------------------------------------------------------------------------
 Init ==
@@ -362,7 +395,7 @@ Call(m) ==
     /\ stage = "chosen" /\ m \in ModesOf(fn)
     /\ mode' = m
     /\ given' = Given(fn, args, m)
-    /\ warned' = TOutside(fn, args)
+    /\ warned' = (TOutside(fn, args) /\ WarnEnabled(fn, args))
     /\ stage' = "done" /\ ncalls' = ncalls + 1
     /\ UNCHANGED <<fn, args>>
 
@@ -394,10 +427,11 @@ UnitsCompatible ==
         UnitTable[DocOf(fn, a, given[a].unit)].dim = UnitTable[DocUnits(fn)[a]].dim
 ResultDimAsNamed == fn \in Fns => LawDim(fn) = UnitTable[ResultUnit(fn)].dim
 WarnIffOutside ==
-    Done => /\ (warned <=> TOutside(fn, args))
+    Done => /\ (warned <=> (TOutside(fn, args) /\ WarnEnabled(fn, args)))
             /\ (WarnExpect(fn, args) = "yes" => warned)
             /\ (WarnExpect(fn, args) = "no" => ~warned)
-            /\ (RangeClass(fn, args) = "inside" => WarnExpect(fn, args) = "no")
+            /\ ((RangeClass(fn, args) = "inside" /\ fn # "density_from_concentration") => WarnExpect(fn, args) = "no")
+            /\ (args.wflag = "off" => ~warned)
 
 (* shape and anchors of the exact laws (decided by TLC at the chosen temperature) *)
 Half == DDec(1, 0, <<5000>>)
@@ -444,17 +478,22 @@ Anchors == DensityAnchors /\ ViscosityAnchor /\ AcidAnchors /\ HenryAnchor
 (* case export *)
 RelevantArgs == DOMAIN DocUnits(fn) \cup
     (CASE fn = "sulfuric_acid_density" -> {"w"} [] fn = "density_from_concentration" -> {"w"}
+       [] fn = "water_diffusion" -> {"em0", "em1"}
        [] fn \in {"nernst", "mobility"} -> {"z"} [] OTHER -> {})
 CaseRec ==
     LET e == Expected(fn, args) IN
     [ in  |-> [fn |-> fn, mode |-> mode,
                args |-> [a \in RelevantArgs |-> args[a]], sel |-> args.sel, impl |-> args.impl,
                given |-> given,
+               opts |-> [warn |-> args.wflag, backend |-> args.be, via |-> args.via,
+                         err_mult |-> fn = "water_diffusion" /\ ~(args.impl /\ args.em0 = QZero /\ args.em1 = QZero),
+                         \* the coefficient tuple (a / U) passed explicitly, as returned by just_return_a / _U
+                         coef |-> ~args.impl /\ fn \in {"water_density", "water_permittivity"}],
                conc |-> IF fn = "density_from_concentration" THEN ConcGiven(args, mode)
                         ELSE [unit |-> "none", mul |-> QOne, bdq |-> NoBDQ],
                names |-> IF fn = "lg_solubility_ratio" THEN SchumpeSel[args.sel] ELSE [ions |-> <<>>, gas |-> ""]],
       exp |-> [kind |-> e.kind, q |-> e.q, term |-> e.term, bdq |-> e.bdq,
-               rtol |-> Rtol(fn, mode), atol |-> Atol(fn),
+               rtol |-> Rtol(fn, mode), atol |-> Atol(fn, args),
                unit |-> ResultUnit(fn), dim |-> DimPairs(UnitTable[ResultUnit(fn)].dim),
                warn |-> WarnExpectM(fn, args, mode), warned |-> warned,
                \* the fixed-point inverse documents a refusal (NoConvergence); it is accepted only
